@@ -1,2 +1,2 @@
-/* fid: const-bitfield-store (fixed 2005721); msg: cannot store to 'const' object */
+/* fid: const-bitfield-store (fixed 71be578); msg: cannot store to 'const' object */
 struct S {const unsigned b:3;} s; void f(void){ s.b = 1; }
